@@ -215,7 +215,14 @@ def _decorate_devices(model: ir.Model, dv: int) -> None:
     if dv == 0:
         return
     top = list(model.graph)
-    inner = [n for n in model.graph.all_nodes() if n.graph is not model.graph]
+    inner, seen, todo = [], {id(model.graph)}, [model.graph]     # own walk: an edit may have nested a graph in itself
+    while todo:
+        for n in todo.pop(0):
+            for sg in _subgraphs(n):
+                if id(sg) not in seen:
+                    seen.add(id(sg))
+                    todo.append(sg)
+                    inner.extend(sg)
     fnodes = [f[0] for f in model.functions.values() if len(f)]
     n0 = top[0] if top else None
     n1 = top[1] if len(top) > 1 else None
@@ -839,14 +846,20 @@ def run_state(rec: dict, k: int) -> dict:
         fl["deser"] = "raise:" + type(e).__name__
         fl["deser_msg"] = str(e)[-200:]
     if m2 is not None:
-        res["pairs"].append({"id": k, "kind": "model", "fn": 0, "orig": orig, "deser": project_graph(m2.graph)})
+        # below IR version 11 device configurations are outside the statement: left out on both sides (the
+        # serializer drops them on top-level nodes but, having no IR version at hand there, writes them for nodes
+        # of nested graphs - recorded as an observation)
+        dc = model.ir_version >= 11
+        if not dc and any(n.device_configurations for n in m2.graph.all_nodes()):
+            fl["devcfg_written_below_ir11"] = True
+        res["pairs"].append({"id": k, "kind": "model", "fn": 0, "orig": orig, "deser": project_graph(m2.graph, with_dc=dc)})
         try:
             res["leaf"] = leaf_diff(model, m2)
         except Exception as e:  # noqa: BLE001
             res["leaf"] = [{"what": "leaf-comparison-raised", "orig": type(e).__name__ + ": " + str(e)[:200], "deser": ""}]
         for fi, (f1, f2) in enumerate(zip(model.functions.values(), m2.functions.values())):
             res["pairs"].append({"id": k, "kind": "function", "fn": fi, "orig": project_graph(f1.graph, with_dc=model.ir_version >= 11),
-                                     "deser": project_graph(f2.graph)})
+                                     "deser": project_graph(f2.graph, with_dc=dc)})
     return res
 
 
